@@ -11,7 +11,7 @@
    display exactly [show S] for the surface S drawn for that frame, and no
    command may be a protocol error. *)
 From Coq Require Import List NArith Bool Arith.
-From SNT Require Export Base.Report Render.Cell Render.Screen Render.Frame Render.Domain Render.Spec.
+From SNT Require Export Base.Report Render.Cell Render.Screen Render.Frame Render.Domain Render.Spec Render.Loop.
 Import ListNotations.
 
 Definition c (f ch : N) : cell := mkcell f (KChar ch).
@@ -54,14 +54,23 @@ Definition sr (f : N) : scell := (WR, f).
 Definition so (f : N) : scell := (Orphan, f).
 Definition rsz (h w : N) (g : grid scell) : op := Resize (N.to_nat h) (N.to_nat w) g.
 
+(* an iteration of the render loop in case files *)
+Definition itr (a : N) (s : grid cell) (frame : bool) (p : option N) (k : N) : iter :=
+  mkiter (N.to_nat a) s (if frame then AWait else AWaitNoFrame) (option_map N.to_nat p) (N.to_nat k).
+
 Inductive c01_case :=
   Hist (h w : N) (widths : list (N * N)) (isizes : list (N * (N * N)))
        (fsp fer : list (N * N)) (ers : list N)
        (ops : list op) (impl : list (list cmd)) (ovl_ii ovl_wi ovl_ww : bool)
 | Forced (h w : N) (widths : list (N * N)) (isizes : list (N * (N * N)))
          (fsp fer : list (N * N)) (ers : list N)
-         (g : grid scell) (foreign : list (N * N * N)) (s : grid cell) (impl : list cmd) (good : bool).
+         (g : grid scell) (foreign : list (N * N * N)) (s : grid cell) (impl : list cmd) (good : bool)
     (* TerminalRenderer::new(term, true) on a terminal showing g with placements [foreign]; draw s; frame *)
+| Loop (h w : N) (widths : list (N * N)) (isizes : list (N * (N * N)))
+       (fsp fer : list (N * N)) (ers : list N)
+       (its : list iter) (impl : list (bool * list cmd)) (good stale : bool).
+    (* the real Terminal::run_render with a scripted handler, on a terminal with a queue of chunks:
+       per iteration (frames_drop was called, commands issued) *)
 
 Definition cmd_eqb (a b : cmd) : bool :=
   match a, b with
@@ -72,6 +81,7 @@ Definition cmd_eqb (a b : cmd) : bool :=
   | CImage i r c, CImage j r' c' => N.eqb i j && Nat.eqb r r' && Nat.eqb c c'
   | CImageErase i None, CImageErase j None => N.eqb i j
   | CImageErase i (Some (r, c)), CImageErase j (Some (r', c')) => N.eqb i j && Nat.eqb r r' && Nat.eqb c c'
+  | CSync a, CSync b => Bool.eqb a b
   | COther, COther => true
   | _, _ => false
   end.
@@ -121,6 +131,17 @@ Definition c01_check (k : c01_case) : bool * bool :=
             let sh := show o h w s in
             sgrid_eqb (sgrid scr') (sgrid sh) && negb (err scr')
             && places_eqb (places scr') (fp ++ places sh)) )
+  | Loop hN wN widths isizes fsp fer ers its impl good stale =>
+      let h := N.to_nat hN in
+      let w := N.to_nat wN in
+      let o := mk_oracle widths isizes fsp fer ers in
+      let isgood := forallb (fun it => in_domain o h w (it_draw it) && no_image_overlap o h w (it_draw it)) its in
+      let '(ok, st) := loop_spec o h w (blank_screen h w) [] (gmake h w cell_default) its impl in
+      ( list_eqb (fun a b => Bool.eqb (fst a) (fst b) && list_eqb cmd_eqb (snd a) (snd b))
+                 (loop_model o (rnew h w false) 0 its) impl
+        && Bool.eqb good isgood && Bool.eqb stale (isgood && st),
+        (* every delivered frame is displayed right (C01_render_loop on the implementation's commands) *)
+        negb isgood || ok )
   end.
 
 Definition c01_report := report c01_check.
